@@ -192,6 +192,9 @@ def run(rep, wd, tier, seed):
     # four threads at once, each reading its own faulty file
     tcases = [(c[0] + 100000,) + tuple(c[1:]) for c in cases[:: max(1, len(cases) // 160)]]
     outs = outs + isocheck.mark_threaded(isocheck.threaded('harness.c10', '_drive', [(seed, p) for p in core.split(tcases, 8)], procs=2))
+    # two readers alive at the same time, consumed alternately
+    lcases = [(c[0] + 200000,) + tuple(c[1:]) for c in cases[3:: max(1, len(cases) // 80)]]
+    outs = outs + isocheck.lockstep('harness.c10', '_drive', [(seed, p) for p in core.split(lcases, 8)], procs=4)
     groups = {}
     for o in outs:
         for t in o:
